@@ -15,7 +15,7 @@ verus! {
 //@ type src/features/side_by_side.rs Panel noderive
 pub type SideBySideData = LeftRight<Panel>;
 pub type LineSections<'a, S> = Vec<(S, &'a str)>;
-//@ type src/config.rs Config keep=side_by_side_data,truncation_symbol,null_style,minus_empty_line_marker_style,plus_empty_line_marker_style,keep_plus_minus_markers
+//@ type src/config.rs Config keep=side_by_side_data,available_terminal_width,line_numbers,truncation_symbol,null_style,minus_empty_line_marker_style,plus_empty_line_marker_style,keep_plus_minus_markers
 
 /// Display width of a string with escape sequences ignored (`ansi::measure_text_width`). Uninterpreted.
 pub uninterp spec fn vis_width(s: Seq<char>) -> nat;
@@ -27,19 +27,43 @@ pub fn verif_truncate_str_to_string(s: &str, display_width: usize, tail: &str) -
     ensures vis_width(s@) > display_width ==> vis_width(r@) == display_width,
             vis_width(s@) <= display_width ==> r@ == s@,
 { unimplemented!() }
-/// (R3) `fill_style.paint(" ".repeat(n)).to_string()`: n columns of styled spaces. ASSUMED: appending it adds exactly n columns.
-pub uninterp spec fn painted_spaces(style: Style, n: usize) -> Seq<char>;
+/// ansi_term: what `style.paint(text).to_string()` writes (the style's escape sequences around the text); uninterpreted
+pub uninterp spec fn painted(style: Style, text: Seq<char>) -> Seq<char>;
+/// stands for `ansi_term::ANSIGenericString`, the value `Style::paint` returns
 #[verifier::external_body]
-pub fn verif_paint_spaces(style: Style, n: usize) -> (r: String) ensures r@ == painted_spaces(style, n) { unimplemented!() }
+pub struct Painted { _p: u8 }
+impl Painted {
+    pub uninterp spec fn text(&self) -> Seq<char>;
+    #[verifier::external_body]
+    pub fn to_string(&self) -> (r: String) ensures r@ == self.text() { unimplemented!() }
+}
+impl Style {
+    /// delta's `Style::paint` (generic over the text type; here for an owned String)
+    #[verifier::external_body]
+    pub fn paint(self, input: String) -> (r: Painted) ensures r.text() == painted(self, input@) { unimplemented!() }
+}
+// str::repeat: "Creates a new String by repeating a string n times."; uninterpreted
+pub uninterp spec fn repeated(s: Seq<char>, n: usize) -> Seq<char>;
+pub assume_specification[ str::repeat ](s: &str, n: usize) -> (r: String)
+    ensures r@ == repeated(s@, n);
+/// `fill_style.paint(" ".repeat(n)).to_string()`: n columns of styled spaces. ASSUMED: appending it adds exactly n columns.
+pub open spec fn painted_spaces(style: Style, n: usize) -> Seq<char> { painted(style, repeated(" "@, n)) }
 pub broadcast axiom fn axiom_width_of_appended_spaces(a: Seq<char>, style: Style, n: usize)
-    ensures #[trigger] vis_width(a + painted_spaces(style, n)) == vis_width(a) + n;
+    ensures #[trigger] vis_width(a + painted(style, repeated(" "@, n))) == vis_width(a) + n;
 
+/// what `Painter::right_fill_background_color` / `Painter::mark_empty_line` make of a painted line (ansi_term string assembly; uninterpreted)
+pub uninterp spec fn right_filled(line: Seq<char>, fill_style: Style) -> Seq<char>;
+pub uninterp spec fn marked_empty(line: Seq<char>, style: Style, marker: Option<&str>) -> Seq<char>;
 pub struct Painter { _p: u8 }
 impl Painter {
     #[verifier::external_body]
-    pub fn mark_empty_line(empty_line_style: &Style, line: &mut String, marker: Option<&str>) { unimplemented!() }
+    pub fn mark_empty_line(empty_line_style: &Style, line: &mut String, marker: Option<&str>)
+        ensures final(line)@ == marked_empty(old(line)@, *empty_line_style, marker),
+    { unimplemented!() }
     #[verifier::external_body]
-    pub fn right_fill_background_color(line: &mut String, fill_style: Style) { unimplemented!() }
+    pub fn right_fill_background_color(line: &mut String, fill_style: Style)
+        ensures final(line)@ == right_filled(old(line)@, fill_style),
+    { unimplemented!() }
     #[verifier::external_body]
     pub fn get_should_right_fill_background_color_and_fill_style(diff_sections: &[(Style, &str)], line_has_homolog: Option<bool>, state: &State, background_color_extends_to_terminal_width: BgShouldFill, config: &Config) -> (r: (Option<BgFillMethod>, Style))
     { unimplemented!() }
@@ -62,7 +86,25 @@ impl MinusPlus<Panel> {
 //@|          panel_line_is_empty && line_index is Some ==> (*state is HunkMinus || *state is HunkPlus || *state is HunkZero),  // @C03:pad.empty.rows.are.never.wrapped.rows.assumed
 //@| ensures panel_side == Left ==> vis_width(final(panel_line)@) == config.side_by_side_data.minus.width,  // @C07:left.panel.has.exactly.the.panel.width.so.the.right.panel.starts.at.the.same.column
 //@rewrite <<<ansi::truncate_str(panel_line, panel_width, &config.truncation_symbol).to_string()>>> => <<<verif_truncate_str_to_string(panel_line, panel_width, &config.truncation_symbol)>>>
-//@rewrite <<<&fill_style .paint(" ".repeat(panel_width - text_width)) .to_string()>>> => <<<&verif_paint_spaces(fill_style, panel_width - text_width)>>>
+
+// ---- Painter::paint_lines: what follows the painted text of a line (unified layout) ----
+/// the line as it is written: the painted text, then - depending on the fill method - the clear-to-end-of-line fill, or
+/// styled spaces up to EXACTLY the terminal width (none when the text is already that wide), or the empty-line mark
+pub open spec fn filled_line(line: Seq<char>, line_is_empty: bool, bg_fill_mode: Option<BgFillMethod>, fill_style: Style, empty_line_style: Option<Style>, config: &Config) -> Seq<char> {
+    match bg_fill_mode {
+        Some(BgFillMethod::TryAnsiSequence) => right_filled(line, fill_style),
+        Some(BgFillMethod::Spaces) => line + painted_spaces(fill_style, sat_sub(config.available_terminal_width, vis_width(line) as usize)),
+        None => if line_is_empty && empty_line_style is Some {
+            marked_empty(line, empty_line_style->0, if config.line_numbers { Some(" ") } else { None })
+        } else { line },
+    }
+}
+//@ region src/paint.rs Painter::paint_lines
+//@sig pub fn paint_lines_fill_region(mut line: String, line_is_empty: bool, bg_fill_mode: Option<BgFillMethod>, fill_style: Style, empty_line_style: Option<Style>, config: &Config, output_buffer: &mut String)
+//@from <<<if let Some(BgFillMethod::TryAnsiSequence) = bg_fill_mode {>>>
+//@to <<<output_buffer.push('\n');>>>
+//@| ensures final(output_buffer)@ == old(output_buffer)@ + filled_line(line@, line_is_empty, bg_fill_mode, fill_style, empty_line_style, config) + seq!['\n'],  // @C07,C09:a.line.is.written.as.its.painted.text.followed.only.by.the.fill.styled.spaces.up.to.exactly.the.terminal.width.or.the.empty.line.mark.and.a.newline
+//@rewrite <<<ansi::measure_text_width(&line)>>> => <<<measure_text_width(&line)>>>
 
 // ---- the width left for text in a panel ----
 pub type SideBySideLineWidth = MinusPlus<usize>;
